@@ -152,7 +152,8 @@ STREAM_KINDS = ["s_empty", "s_cut14", "s_cut12", "s_cut34", "s_cut1", "s_flip0",
 # token-level faults inside unfiltered text streams (page contents, form XObjects, Type3 glyph procedures, ToUnicode CMaps):
 # every token x {delete, duplicate, replace by 0 / name / string / empty array / empty dictionary}: operators that lose an
 # operand, get one too many or one of another type; operators that disappear or run twice
-CONTENT_KINDS = ["c_del", "c_dup", "c_zero", "c_name", "c_string", "c_array", "c_dict"]
+# c_hexbig / c_hexzero / c_bigint: extreme values of the right type (a code of all ones / zeros, a number of 400 digits)
+CONTENT_KINDS = ["c_del", "c_dup", "c_zero", "c_name", "c_string", "c_array", "c_dict", "c_hexbig", "c_hexzero", "c_bigint"]
 _TOKEN = re.compile(rb"\((?:\\.|[^()\\])*\)|<<|>>|<[0-9A-Fa-f\s]*>|[\[\]{}]|/[^\s/\[\](){}<>%]*|[^\s/\[\](){}<>%]+")
 _TEXT_BYTES = frozenset(range(32, 127)) | {9, 10, 12, 13}
 
@@ -179,6 +180,7 @@ def apply_content_fault(doc: Doc, n: int, ti: int, kind: str) -> Optional[Doc]:
     a, b = content_tokens(st.data)[ti]
     tok = st.data[a:b]
     rep = {"c_del": b"", "c_dup": tok + b" " + tok, "c_zero": b"0", "c_name": b"/Xyz", "c_string": b"(abc)", "c_array": b"[ ]",
+           "c_hexbig": b"<FFFFFFFF>", "c_hexzero": b"<00000000>", "c_bigint": b"9" * 400,
            "c_dict": b"<< >>"}[kind]
     if rep == tok:
         return None
@@ -678,7 +680,10 @@ def enumerate_cases(seed_name: str, doc: Doc, opts: Dict[str, Any]) -> List[Tupl
     for off in range(0, len(data)):
         if off % step == 0 or _cut_inside_token(data, off):
             cases.append(("trunc", off, "truncate"))
-    for kind in ("sx_zero", "sx_big", "sx_mid", "sx_missing", "sx_garbled", "xref_row_garbled", "xref_kw", "eof_missing", "header_missing"):
+    for kind in ("sx_zero", "sx_big", "sx_mid", "sx_missing", "sx_garbled", "xref_row_garbled", "xref_kw", "eof_missing", "header_missing",
+                 # the chain of cross-reference sections: /Prev or /XRefStm leading back to the section itself, before the file,
+                 # into the middle of the body, beyond the end
+                 "prev_self", "prev_neg", "prev_mid", "prev_big", "xrefstm_self", "xrefstm_neg"):
         cases.append(("file", 0, kind))
     return cases
 
@@ -712,6 +717,23 @@ def make_case(doc: Doc, opts: Dict[str, Any], case: Tuple[str, Any, str], base: 
     if fam == "trunc":
         return base[:site]
     sx = base.rfind(b"startxref")
+    if kind.startswith(("prev_", "xrefstm_")):
+        key = "Prev" if kind.startswith("prev_") else "XRefStm"
+        own = int(base[sx + 9:].split()[0])
+        val = {"self": own, "neg": -5, "mid": len(base) // 2, "big": 10 ** 9}[kind.split("_")[1]]
+        if opts.get("xref") == "stream":
+            d2 = copy.deepcopy(doc)
+            d2.container_hook = lambda w, d: d.__setitem__(key, 1111111111) if w == "xref" else None     # type: ignore[attr-defined]
+            data = build(d2, opts)
+            if val < 0:
+                return data.replace(b"1111111111", b"%-10d" % val)
+            own2 = int(data[data.rfind(b"startxref") + 9:].split()[0])
+            return data.replace(b"1111111111", b"%010d" % (own2 if kind.endswith("self") else val))
+        i = base.rfind(b"trailer")
+        j = base.find(b"<<", i)
+        if i < 0 or j < 0:
+            return None
+        return base[:j + 2] + b" /%s %d " % (key.encode(), val) + base[j + 2:]
     if kind == "sx_zero":
         return base[:sx] + b"startxref\n0\n%%EOF\n"
     if kind == "sx_big":
@@ -862,7 +884,7 @@ def case_stride(doc: Doc, case: Tuple[str, Any, str], stride: int, base: bytes =
     if fam == "obj" and any(isinstance(x, tuple) and x[0] == "k" and x[1] in ("ColorSpace", "DecodeParms", "Encrypt") for x in site[1:]):
         return min(stride, 3)       # colour-space arrays, filter parameters: many types meet few code paths
     if fam == "content":
-        return min(stride, 4)       # of the four ill-typed replacements of one token (name, string, array, dictionary) at least one is run
+        return min(stride, 3)       # coprime with the 10 kinds per token: every kind is run for a third of the tokens
     if fam == "stream" and kind.startswith("s_lencut"):
         return min(stride, 2)
     if fam == "obj" and kind in ("string", "name"):
